@@ -3,12 +3,14 @@ from __future__ import annotations
 
 import copy
 import json
+import re
 from collections import Counter, defaultdict
 from fractions import Fraction
 
 from ..gen.ledger import Opts, gen_ledger, render_dsl
+from ..model import hmrc
 from ..probe import probe
-from ..util import cap_viols, rng_for, sha, fr, dstr, ZERO
+from ..util import cap_viols, rng_for, sha, fr, dstr, d as pdate, ZERO
 from . import ledger_core as lc
 
 PROP = "C06"
@@ -158,6 +160,23 @@ def _compare_variant(base, var, oa, ob, cnt, vclass):
         from .c05 import residue_class
         rc = residue_class(base if not ok_a else var, msg)
         res = rc if rc.startswith("holding-short-by-decimal-residue:") and not rc.endswith(":none") else "other"
+        m_ = re.search(r"CAPRETURN (\S+) on (\d{4}-\d\d-\d\d): capital distribution .* exceeds allowable cost", msg)
+        if res == "other" and m_:
+            # F3c: a capital return dated while exactly zero shares are held (sold out before that date) is ignored or
+            # sized against ~1e-26-share residue lots, depending on the rounding path, after a non-terminating split ratio
+            tk_, d_ = m_.group(1), pdate(m_.group(2))
+            sub = [t for t in base if t["ticker"].upper() == tk_.upper()]
+            if lc.nonterminating_split(sub):
+                days_, _, _ = hmrc.build_days(sub)
+                pos_ = ZERO
+                for dy in days_.get(tk_.upper(), []):
+                    if dy.date >= d_:
+                        break
+                    pos_ += dy.A - dy.S
+                    for mm in dy.splits:
+                        pos_ *= mm
+                if pos_ == 0:
+                    res = "capital-return-on-exactly-zero-holding-after-nonterminating-split"
         v.append({"clause": "accept-reject-differs", "detail": f"[{vclass}] base: {ea[:160]} | variant: {eb[:160]}",
                   "signature": f"accept-reject-differs:{res}"})
         return v
